@@ -132,6 +132,7 @@ def make_pub(f):
 
 
 SEEN_ASSUMED = {}
+SEEN_SERDE = {}
 
 
 def assumed_fingerprint(file, name):
@@ -267,6 +268,20 @@ def build_unit(unit, scratch):
             add("// contract proved in unit `%s` on the real text of %s; ASSUMED here" % (seg[1], seg[2]), ("vocab", unit))
             add(splice.stub_of(hit[0]), ("stub", "%s/%s" % (seg[1], seg[2])))
             b.stubs.append("%s/%s" % (seg[1], seg[2]))
+        elif seg[0] == "serde":
+            src = load_source(seg[1])
+            try:
+                s0, e0 = src.find_type(seg[2])
+            except rscan.ScanError as ex:
+                raise UnitError("serde %s %s: %s" % (seg[1], seg[2], ex))
+            _, inner = strip_attrs(src.span_text(s0, e0))
+            allattrs = outer_attrs(src, s0) + inner
+            have = [a for a in allattrs if "serde" in a or ("derive" in a and ("Serialize" in a or "Deserialize" in a or "Default" in a))]
+            SEEN_SERDE[seg[1] + "::" + seg[2]] = have
+            want = (attr_base or {}).get(seg[1] + "::" + seg[2])
+            if want is not None and want != have:
+                raise UnitError("the serde attributes of type %s changed (%s -> %s): the ASSUMED round trip of this type (what is stored is what is read back) no longer describes it" % (seg[2], want, have))
+            add("// ASSUMED serde round trip of the repository type %s (%s): attributes fingerprinted" % (seg[2], seg[1]), ("vocab", unit))
         elif seg[0] == "assumed":
             fp = assumed_fingerprint(seg[1], seg[2])
             SEEN_ASSUMED[(seg[1], seg[2])] = fp
